@@ -404,6 +404,13 @@ func (cs *ContractSet) Load(path string, commentOnly bool) error {
 			curLemma = lm
 		case "func":
 			curLoop, curLemma, curMon = nil, nil, nil
+			// `func extern pkg.Recv.Name(params)`: a package-local (assumed) contract for a function outside the
+			// module; it overrides the one in /verif/extern for calls made from this package only
+			localExtern := false
+			if strings.HasPrefix(rest, "extern ") {
+				localExtern = true
+				rest = strings.TrimSpace(rest[len("extern "):])
+			}
 			key := rest
 			var pn []string
 			if i := strings.Index(rest, "("); i >= 0 {
@@ -416,10 +423,13 @@ func (cs *ContractSet) Load(path string, commentOnly bool) error {
 					pn = append(pn, strings.Fields(p)[0])
 				}
 			}
+			if localExtern {
+				key = "extern " + key
+			}
 			if _, dup := cs.Funcs[key]; dup {
 				return fail(l, "duplicate contract for %s", key)
 			}
-			curFn = &Contract{Key: key, ParamNames: pn, Loops: map[int]*LoopSpec{}, File: path, Line: l.line, Extern: !commentOnly, Props: fileProps, Opts: map[string]string{}}
+			curFn = &Contract{Key: key, ParamNames: pn, Loops: map[int]*LoopSpec{}, File: path, Line: l.line, Extern: !commentOnly || localExtern, Props: fileProps, Opts: map[string]string{}}
 			cs.Funcs[key] = curFn
 		case "end":
 			curFn, curLoop, curLemma, curMon = nil, nil, nil, nil
